@@ -45,7 +45,7 @@ def _order_arg(order):
     raise ValueError(order)
 
 
-def build_lattice(cfg, site=None):
+def _build_lattice(cfg, site=None):
     """real constructor of the configuration `cfg` (json-able dict)
 
     cfg: cls, Ls, order, bc (list of 'open' | 'periodic' | int), bc_MPS, wrap (None | dict(kind=...))"""
@@ -85,6 +85,25 @@ def build_lattice(cfg, site=None):
     raise ValueError(kind)
 
 
+def build_lattice(cfg, site=None):
+    """real constructor of the configuration `cfg`, followed by the `history` of in-place public methods
+    (cfg['history'] = [['enlarge', factor], ...]: `enlarge_mps_unit_cell`).  What the lattice looked like before the
+    history is kept for the reference formulas (`lat._verif_pre`)."""
+    lat = _build_lattice(cfg, site)
+    hist = cfg.get('history') or []
+    if hist:
+        base = lat.regular_lattice if (cfg.get('wrap') or {}).get('kind') == 'helical' else lat
+        pre = dict(order=[tuple(int(v) for v in row) for row in np.asarray(lat.order)], Ls=tuple(int(v) for v in lat.Ls),
+                   N_sites=int(lat.N_sites), reg_cells=int(np.prod(base.Ls)))
+        for op in hist:
+            if op[0] == 'enlarge':
+                lat.enlarge_mps_unit_cell(int(op[1]))
+            else:
+                raise ValueError(op)
+        lat._verif_pre = pre
+    return lat
+
+
 class Ref:
     """concrete snapshot of what the reference formulas may use: the order (list of int tuples), sizes and
     the boundary conditions as given to the constructor"""
@@ -103,10 +122,23 @@ class Ref:
         self.open = [b == 'open' for b in bc]
         sh = [int(b) if isinstance(b, int) else 0 for b in bc[1:]]
         self.shift = sh if any(sh) else None
-        self.table = {row: i for i, row in enumerate(self.order)}
         if self.helical:
             self.Nh = int(lat.N_sites)
         self.irregular = wrap == 'irregular'
+        self.history = [list(h) for h in (cfg.get('history') or [])]
+        if self.history:
+            # expectations after enlarge_mps_unit_cell, from the state BEFORE the history (own formulas, not lat.N_sites)
+            pre = lat._verif_pre
+            F = int(np.prod([h[1] for h in self.history if h[0] == 'enlarge']))
+            if self.helical:
+                # the helical MPS unit cell grows by the factor; the regular lattice (read as data) must contain it
+                self.Nh = pre['N_sites'] * F
+            else:
+                L0 = pre['Ls'][0]
+                self.order = [(row[0] + k * L0, ) + row[1:] for k in range(F) for row in pre['order']]
+                self.Ls = (L0 * F, ) + tuple(pre['Ls'][1:])
+                self.N = len(self.order)
+        self.table = {row: i for i, row in enumerate(self.order)}
 
 
 def symbolic_ready(lat):
